@@ -85,7 +85,8 @@ def run(ctx):
             if st['phase'] != 'done':
                 continue
             k += 1
-            if k % ctx.pick(4, 2):
+            # one test per terminal state, thinned so that a configuration gives at most about 25 000 tests
+            if k % max(ctx.pick(4, 2), r.distinct // 25000):
                 continue
             ntests += 1
             rows = st['rows']
